@@ -781,3 +781,28 @@ def fam_clones_static_and_reared():
                             framers=[dict(name="m", schedule="active", frames=[dict(name="f0", items=f0), dict(name="f1", items=f1),
                                                                              dict(name="f2", items=f2)])] + moots)
                 yield ("clones/static-%s+rear%d/raze-%s" % (static, nrear, who), prog, dict())
+
+
+def fam_clocks_condaux():
+    """a conditional auxiliary that starts and completes while a timeout / repeat of its main frame (or of a frame
+    above it) is still pending: truncating and restoring the active outline is not an outline change, so the
+    framer's clocks must keep counting."""
+    ctxs = ("enter", "exit")
+    for tick in (0.125, 0.1):
+        for k in (3, 5, 8):
+            for kind in ("now", "repeat1", "repeat2"):
+                for where in ("same", "above"):
+                    T = k * tick
+                    auxline = ("auxif", "x", [("recurred", ">=", 1, False), ("recurred", "<", 3, False)])
+                    if where == "same":
+                        frames = [dict(name="a", items=recs("a", ctxs) + [auxline, ("timeout", T)]),
+                                  dict(name="a1", over="a", items=recs("a1", ctxs)),
+                                  dict(name="b", next="a", items=recs("b", ctxs) + [("repeat", k)])]
+                    else:
+                        frames = [dict(name="a", next="b", items=recs("a", ctxs) + [("timeout", T)]),
+                                  dict(name="a1", over="a", items=recs("a1", ctxs) + [auxline]),
+                                  dict(name="a2", over="a1", items=recs("a2", ctxs)),
+                                  dict(name="b", next="a", items=recs("b", ctxs) + [("repeat", k)])]
+                    yield ("clocks-condaux/%r/k%d/%s/%s" % (tick, k, kind, where),
+                           dict(tick=tick, inits=[], framers=[dict(name="m", schedule="active", frames=frames), aux_framer_ext("x", kind)]),
+                           dict(tick=tick, T=T, N=k, clocked=()))
